@@ -17,7 +17,7 @@ DEFAULT = dict(
     p_group_result=0.25, p_flatten=0.4, p_as=0.12, p_named=0.25,
     p_opt=0.25, p_group_param=0.25, p_soft=0.35, p_obj=0.5, p_nest=0.25,
     p_dup=0.06, p_cycle=0.1, p_unknown_dep=0.08, p_foreign_dep=0.12,
-    n_types=8, early_scopes=0.3, p_multi_dec=0.25, p_group_dec=0.3, p_dec_self=0.85, p_one_obj=0.0, p_soft_pattern=0.0, p_dec_chain=0.0, p_dup_as=0.03, p_dup_dec_key=0.0,
+    n_types=8, early_scopes=0.3, p_multi_dec=0.25, p_group_dec=0.3, p_dec_self=0.85, p_one_obj=0.0, p_soft_pattern=0.0, p_dec_chain=0.0, p_dup_as=0.03, p_dup_dec_key=0.0, p_variadic=0.12,
 )
 
 PROFILES = {
@@ -44,7 +44,7 @@ PROFILES = {
     "decor": dict(w_decorate=7, p_multi_dec=0.35, p_group_dec=0.35, n_types=5, p_fault=0.12, w_scope=3, p_dec_chain=0.35,
                   p_dup_dec_key=0.04),
     "callbacks": dict(p_callback=0.8, p_fault=0.3, w_decorate=3, n_types=6),
-    "dry": dict(p_dry=1.0, p_fault=0.0, p_callback=0.2),
+    "dry": dict(p_dry=1.0, p_fault=0.0, p_callback=0.35, p_variadic=0.3, w_decorate=3),
 }
 
 
@@ -319,6 +319,9 @@ class Gen:
             f["callback"] = True
         if f.get("callback") or self.chance(0.2):
             f["dur"] = [self.r.choice(PRIMES) for _ in range(nexec)]
+        # a trailing variadic parameter (dig ignores it; the model's signatures do not carry it)
+        if self.chance(self.p["p_variadic"]):
+            f["variadic"] = True
 
     def count_slots(self, rs):
         n = 0
